@@ -424,18 +424,45 @@ def run(tier, seed):
     return cov, violations
 
 OPEN_ITEMS = [
-    "C06_unify_complete (unbounded, typed axes) -- until proved: C06_unify_complete_upto (exhaustive in-kernel) plus the brute-force coincidence oracle on every implementation unifier",
-    "fuel sufficiency of unify on typed axes (no divergence) -- part of the bounded theorem only",
-    "where / stack / any / log_softmax / reshape / view / copy_ / project / dim_to_dense / iteration / tolist: correspondence only (no Coq model)",
+    "C06_unify_complete (unbounded, typed axes) -- bounded stop-gaps C06_unify_complete_upto12 / C06_unify_complete_2d_upto6 plus the brute-force coincidence oracle on every implementation unifier",
+    "fuel sufficiency of unify beyond the bound (a divergence of the model would show as verdict 14)",
+    "binary / commutative / sub refinement with broadcasting, and sizes_agree as a consequence of typing (the theorems carry the boolean guards no_broadcast and sizes_agree)",
+    "refinement theorems for transpose (as sliced in the code), expand, getitem, default_to, freshen/clone, post_init: modelled and model-checked through pt_check, proofs open",
+    "C06_repr_inv preservation by the constructors: replaced by the run-time monitor and C06_repr_inv_wf / C06_repr_inv_injective",
+    "reciprocal laws of div on xval (C06_sub_like_refines_partial is generic in them)",
+    "where / stack / any / log_softmax / reshape / view / copy_ / project / dim_to_dense / iteration / tolist / to / exp / expm1 / log / logaddexp: correspondence only (no Coq model)",
 ]
+
+def _fix(x):
+    """JSON round trip: lists back to the tuples of the wire format"""
+    if isinstance(x, list):
+        if len(x) == 2 and x[0] == "Phys": return ("Phys", (x[1][0], x[1][1]))
+        if len(x) == 2 and x[0] == "Prod": return ("Prod", [_fix(y) for y in x[1]])
+        if len(x) == 2 and x[0] == "Sum": return ("Sum", (x[1][0], _fix(x[1][1]), x[1][2]))
+        return [_fix(y) for y in x]
+    return x
 
 def replay(path):
     r = json.load(open(path))
     c = r["case"]
     if isinstance(c, dict) and "kind" in c:
-        cf = {f.kind: f for f in CHECKFNS}[c["kind"]]
-        print("replay of axis-level cases: re-run `bin/check C06 quick` with VERIF_SEED=%s (value: %s)" % (r.get("seed"), json.dumps(c["value"])[:2000]))
-        return 1
+        v = _fix(c["value"])
+        kind = c["kind"]
+        if kind == "c06-unify": cf, nv = UNIFY, impl_unify(v[0], v[1], v[3])
+        elif kind == "c06-anti": cf, nv = ANTI, impl_antiunify(v[0], v[1])
+        elif kind == "c06-basic": cf, nv = BASIC, impl_basic(v[0])
+        elif kind == "c06-index": cf, nv = INDEX, impl_index(v[0], [tuple(x[0]) for x in v[1]])
+        elif kind == "c06-product": cf, nv = PRODUCT, impl_product(v[0])
+        elif kind == "c06-repr":
+            print("representation recorded by the monitor:", v); cf, nv = REPR, (v[0], [tuple(p) for p in v[1]], v[2])
+        else:
+            print("re-run `bin/check C06 quick` with VERIF_SEED=%s (value: %s)" % (r.get("seed"), json.dumps(c["value"])[:2000]))
+            return 1
+        code = run_coq(cf, [nv], tag="replay")[0]
+        print("input:", nv[:-1] if kind != "c06-repr" else nv)
+        print("implementation output now:", nv[-1])
+        print("verdict code (vm_compute in the kernel):", code)
+        return 1 if code else 0
     if isinstance(c, dict) and "op" in c:
         return OPS.replay_case(c)
     print("cannot replay this case automatically; re-run bin/check C06 %s with VERIF_SEED=%s" % (r.get("tier"), r.get("seed")))
@@ -444,6 +471,6 @@ def replay(path):
 MANIFEST = dict(
     level="proof",
     text="Coq theorems about a Gallina model of fggs/indices.py's axis algebra (eval bound, stride = affine form, index inverts eval, pattern injectivity = at most one backing element, unify soundness, antiunify generalises both arguments, bounded completeness of unify on typed axes) and of PatternedTensor (to_dense = denote, view operations, unary maps, binary operations through expansion); the model is tied to /repo by running both on generated typed axes/patterns, brute-force specifications judge every implementation output; every listed tensor operation and compositions of up to three are compared with torch on the denoted dense tensors; every PatternedTensor constructed inside the library is checked against the extracted representation invariant.",
-    note="Trusted: Coq kernel + vm_compute, extraction cross-checked against vm_compute, the Python harness (numbering of PhysicalAxis objects, independent evaluator of axes), torch's dense kernels as reference. Known findings: F16 (defaults computed with Python scalar arithmetic raise where torch returns inf/nan). Open: unbounded unify completeness; several operations are correspondence-only.",
+    note="Trusted: Coq kernel + vm_compute, extraction cross-checked against vm_compute, the Python harness (numbering of PhysicalAxis objects, independent evaluator of axes), torch's dense kernels as reference. Known findings: F16/F16b (defaults computed with Python scalar arithmetic raise where torch returns inf/nan), F21 (nan_to_num_ puts the float64 maximum into float32 tensors), F22 (Python max drops a NaN default in relu_/maximum). Open: unbounded unify completeness; binary operations with broadcasting; several operations are correspondence-only.",
     technique="Coq proof (model + theorems) + model/implementation correspondence with brute-force specification oracles + differential testing against torch on denotations + runtime invariant monitor",
     design_ref="DESIGN.md section 6, C06; Appendix A.6; Appendix C")
